@@ -490,6 +490,39 @@ BENIGN = [
     M('n-ell-generator', N, "return np.sum([np.any(~bound.dim_cube) for bound in",
       "return sum([bool(np.any(~bound.dim_cube)) for bound in", ALL),
 ]
+
+
+def _with_statement(src):
+    """Rewrite Sampler.write: `fstream = h5py.File(tmp, 'w')` ... `fstream.close()` becomes a
+    with-block (the rename stays after it)."""
+    a = src.index("        fstream = h5py.File(filepath_tmp, 'w')\n")
+    b = src.index("        fstream.close()\n        os.replace(filepath_tmp, filepath)\n", a)
+    body = src[a:b].split('\n')
+    head = "        with h5py.File(filepath_tmp, 'w') as fstream:\n"
+    new = head + '\n'.join(('    ' + l if l.strip() else l) for l in body[1:])
+    return src[:a] + new + src[b + len("        fstream.close()\n"):]
+
+
+def _early_return_style(src):
+    """Union.trim: `if cond: ...; return True  else: return False` -> guard clause."""
+    old = ("        if log_r[index] - np.median(np.delete(log_r, index)) < -np.log(\n"
+           "                threshold):\n")
+    a = src.index(old)
+    b = src.index("        else:\n            return False\n", a)
+    body = src[a + len(old):b]
+    dedent = '\n'.join(l[4:] if l.startswith('            ') else l for l in body.split('\n'))
+    new = ("        if not (log_r[index] - np.median(np.delete(log_r, index)) < -np.log(\n"
+           "                threshold)):\n            return False\n") + dedent
+    return src[:a] + new + src[b + len("        else:\n            return False\n"):]
+
+
+BENIGN += [
+    dict(id='with-statement', file=S, old="fstream = h5py.File(filepath_tmp, 'w')", new=None,
+         fn=_with_statement, props=ALL.split()),
+    dict(id='guard-clause-trim', file=U, old="            return False\n\n    def contains",
+         new=None, fn=_early_return_style, props=ALL.split()),
+]
+
 # entries that replace every occurrence of `old`
 REPLACE_ALL = {'rename-mask', 'fstring-keys', 'rename-temp-path', 'multiplicity-renamed',
                'min-of-shell-n'}
